@@ -77,7 +77,7 @@ theorem cv_traced (u0 : σ) (l : List (TraceLabel × S)) (v0 : V) (k : Nat)
 /-- **Shape of the trace of a solved period** (`reset = False`): in order `start, before, 0, 1 … k0, end`;
     snapshot `j` is taken after pass `j`; the last snapshot is the stored solution (the state `solve_t` leaves). -/
 theorem trace_shape_solved (l : List (TraceLabel × S)) (u : σ) (st : List Status) (it : List Int)
-    (hacc : Accepted o n t)
+    (hacc : Accepted I o n t)
     (hb : (I.before o (seed I o t u) t).2 = false)
     (k0 : Nat) (h1 : 1 ≤ k0) (hk : (k0 : Int) ≤ o.maxIter)
     (hev : ∀ i, i < k0 → (I.eval o (traj I o t (I.before o (seed I o t u) t).1 i) t (i + 1)).2 = false)
@@ -156,7 +156,7 @@ theorem trace_shape_solved (l : List (TraceLabel × S)) (u : σ) (st : List Stat
 
 /-- **An unsolved period's trace simply stops after its last pass**: `start, before, 0, 1 … max_iter`, no `end`. -/
 theorem trace_shape_failed (l : List (TraceLabel × S)) (u : σ) (st : List Status) (it : List Int)
-    (hacc : Accepted o n t)
+    (hacc : Accepted I o n t)
     (hb : (I.before o (seed I o t u) t).2 = false)
     (hev : ∀ i, i < o.maxIter.toNat →
       (I.eval o (traj I o t (I.before o (seed I o t u) t).1 i) t (i + 1)).2 = false)
